@@ -53,6 +53,11 @@ fn find<'a>(n: &'a Node, k: &str) -> Option<&'a Node> {
     None
 }
 
+fn find_all<'a>(n: &'a Node, k: &str, out: &mut Vec<&'a Node>) {
+    if kind(n) == k { out.push(n); }
+    for c in n.children.iter() { find_all(c, k, out); }
+}
+
 fn html_unescape(s: &str) -> String {
     s.replace("&lt;", "<").replace("&gt;", ">").replace("&quot;", "\"").replace("&amp;", "&")
 }
@@ -92,7 +97,14 @@ pub fn run(n: usize, rng: &mut Rng, rep: &mut Report) {
                 // continuation lines must not start a block construct or be blank (paragraph structure wins in CommonMark)
                 if t.split('\n').skip(1).any(|l| l.trim().is_empty()) || t.split('\n').any(|l| l.trim().is_empty() && t.contains('\n')) { t = t.replace('\n', " "); }
                 let ticks = "`".repeat(max_run(&t, '`') + 1);
-                let d = format!("{ticks} {t} {ticks}");
+                // in context: other backtick runs (of OTHER lengths, so that they cannot pair with ours) and spans around it
+                let n = ticks.len();
+                // unmatched context runs all have distinct lengths > n, so they can pair with nothing
+                let run = |k: usize| "`".repeat(n + k);
+                let before = match rng.below(4) { 0 => String::new(), 1 => format!("w {} x ", run(1)), 2 => format!("{}q{} ", run(5), run(5)), _ => format!("[{} y {}z ", run(1), run(3)) };
+                let after = match rng.below(3) { 0 => String::new(), 1 => format!(" v {}", run(2)), _ => format!(" {}r{} {}", run(6), run(6), run(4)) };
+                // a leading run of 3+ backticks at the start of the line would be a fence: start with a word
+                let d = format!("p {before}{ticks} {t} {ticks}{after}");
                 (d, t.replace('\n', " "), "span")
             }
         };
@@ -104,7 +116,11 @@ pub fn run(n: usize, rng: &mut Rng, rep: &mut Report) {
         let got: Option<String> = match which {
             0 => find(&tree, "CodeFence").and_then(|n| n.cast::<CodeFence>()).map(|f| f.content.clone()),
             1 => find(&tree, "CodeBlock").and_then(|n| n.cast::<CodeBlock>()).map(|f| f.content.clone()),
-            _ => find(&tree, "CodeInline").and_then(|n| if n.children.len() == 1 { n.children[0].cast::<Text>() } else { None }).map(|t| t.content.clone()),
+            _ => {
+                let mut all = vec![]; find_all(&tree, "CodeInline", &mut all);
+                let texts: Vec<String> = all.iter().filter_map(|n| if n.children.len() == 1 { n.children[0].cast::<Text>() } else { None }).map(|t| t.content.clone()).collect();
+                texts.iter().find(|c| **c == want).cloned().or_else(|| texts.first().cloned())
+            }
         };
         match got {
             None => rep.violation(&format!("{}-missing", what), input.clone(), format!("no {} node with the payload; tree {}", what, crate::dump::dump(&tree, false))),
@@ -112,11 +128,16 @@ pub fn run(n: usize, rng: &mut Rng, rep: &mut Report) {
             Some(_) => {
                 // rendered: escaped payload appears between <code...> and </code>, nothing interpreted
                 let html = tree.render();
-                let needle_start = html.find("<code").and_then(|i| html[i..].find('>').map(|j| i + j + 1));
-                let ok = match needle_start {
-                    Some(s) => match html[s..].find("</code>") { Some(e) => html_unescape(&html[s..s + e]) == want.replace('\0', "\u{fffd}"), None => false },
-                    None => false,
-                };
+                // some <code ...>PAYLOAD</code> element reproduces the payload
+                let mut ok = false;
+                let mut rest = html.as_str();
+                while let Some(i) = rest.find("<code") {
+                    let r = &rest[i..];
+                    let s0 = match r.find('>') { Some(j) => j + 1, None => break };
+                    let e = match r[s0..].find("</code>") { Some(e) => e, None => break };
+                    if html_unescape(&r[s0..s0 + e]) == want.replace('\0', "\u{fffd}") { ok = true; break; }
+                    rest = &r[s0 + e..];
+                }
                 if !ok { rep.violation(&format!("{}-render", what), input.clone(), format!("rendered {:?} does not reproduce {:?}", html, want)); }
             }
         }
